@@ -103,7 +103,8 @@ def run(ctx):
     recs = []
 
     def observe(tag, vendor, tj):
-        fmt = reg[vendor].make_formatter()
+        wide = len(recs) % 5 == 4
+        fmt = reg[vendor].make_formatter(indent="    ") if wide else reg[vendor].make_formatter()
         t = cases.tree(tj)
         rec = {"id": "%s-%s-%d" % (tag, vendor, len(recs)), "vendor": vendor, "t": tj, "indent": vendor in INDENT_FAMILY}
         try:
@@ -119,6 +120,8 @@ def run(ctx):
             ctx.nontrivial(json.dumps([vendor, tj]))
 
     vendors = list(reg)
+    for v in vendors:
+        reg[v].make_formatter(indent="")        # the deploy path asks every vendor for an unindented formatter first (same process)
     for k, tj in enumerate(trees):
         for v in vendors:
             if v == "routeros":
